@@ -42,9 +42,11 @@ VARIABLES store,    \* [Nodes -> [Keys -> <<val, ver, live>>]]
           clock,    \* operation id source
           sent,     \* message counters of the current operation [forward, copy, ack]
           ghost,    \* deviations of the code that this behaviour exercised
-          sched     \* steps taken (history)
+          sched,    \* steps taken (history)
+          disk,     \* [Nodes -> SUBSET Keys]: keys an incremental snapshot of the node has written (live or removed)
+          snapq     \* nodes with a snapshot of the database queued for their declutter timer
 
-vars == <<store, replq, req, rsp, pend, next, clock, sent, ghost, sched>>
+vars == <<store, replq, req, rsp, pend, next, clock, sent, ghost, sched, disk, snapq>>
 
 Keys == DOMAIN InitStore \cup {Ops[i].k : i \in DOMAIN Ops}
 Links == {<<x, y>> \in Nodes \X Nodes : x # y /\ (x = P \/ y = P)}
@@ -61,6 +63,8 @@ Init ==
   /\ sent = [forward |-> 0, copy |-> 0, ack |-> 0]
   /\ ghost = {}
   /\ sched = <<>>
+  /\ disk = [n \in Nodes |-> {}]
+  /\ snapq = {}
 
 (* ---------------- the version rule of Database::set_value ---------------- *)
 Exists(e) == e[2] # -1
@@ -78,9 +82,12 @@ ApplySet(n, k, v, ver) ==      \* returns <<new store of n, accepted?, answer: "
        ELSE <<store[n], FALSE, "verr">>
   ELSE <<[store[n] EXCEPT ![k] = <<v, NewVer(e, ver), TRUE>>], TRUE, "ok">>
 
-(* no snapshot happens in this model, so every key is still `New': remove_value drops the entry *)
-(* (a key that reached the disk would become a tombstone with its version advanced)             *)
-ApplyRemove(n, k) == [store[n] EXCEPT ![k] = Absent]
+(* remove_value: an entry that never reached the disk (state New) is dropped; one that a snapshot has written *)
+(* (live, or already a tombstone) becomes / stays a tombstone with its version advanced                       *)
+ApplyRemove(n, k) ==
+  LET e == store[n][k] IN
+  IF k \in disk[n] /\ Exists(e) THEN [store[n] EXCEPT ![k] = <<"<Empty>", e[2] + 1, FALSE>>]
+  ELSE [store[n] EXCEPT ![k] = Absent]
 
 IntRange == -150..150
 IsInt(v) == \E i \in IntRange : ToString(i) = v
@@ -102,6 +109,11 @@ ClientOp(o) ==
      /\ clock' = clock + 1
      /\ sent' = [forward |-> 0, copy |-> 0, ack |-> 0]
      /\ UNCHANGED <<rsp, pend>>
+     \* `snapshot false <db>' queues the database for the node's declutter timer; the timer (`tick') writes every
+     \* entry the node holds -- live ones and tombstones -- and leaves the entries in memory
+     /\ snapq' = IF o.op = "snapshot" THEN snapq \cup {n} ELSE IF o.op = "tick" THEN snapq \ {n} ELSE snapq
+     /\ disk' = IF o.op = "tick" /\ n \in snapq
+                THEN [disk EXCEPT ![n] = @ \cup {k \in Keys : Exists(store[n][k])}] ELSE disk
      /\ CASE o.op = "set" ->
                LET r == ApplySet(n, o.k, o.v, o.ver) IN
                /\ store' = [store EXCEPT ![n] = r[1]]
@@ -114,13 +126,17 @@ ClientOp(o) ==
                /\ replq' = Enq(n, Msg("replicate-remove", o.k, "", 0, 0))
                \* (repaired: before, a remove issued on a secondary was never forwarded)
                /\ req' = IF n # P THEN [req EXCEPT ![<<n, P>>] = Append(@, Msg("replicate-remove", o.k, "", 0, 0))] ELSE req
-               /\ UNCHANGED ghost
+               \* a secondary applies its own remove at once and again when the primary's copy comes back: the
+               \* tombstone of a key that is on its disk ends one version ahead (same mechanism as for writes)
+               /\ ghost' = IF n # P /\ o.k \in disk[n] /\ Exists(store[n][o.k])
+                           THEN ghost \cup {"SecondaryWriteAppliedLocally"} ELSE ghost
           \* `snapshot false <db>': queued for the snapshot timer locally, re-emitted for the replicas
           [] o.op = "snapshot" ->
                /\ replq' = Enq(n, Msg("replicate-snapshot", "", "", 0, 0))
                /\ UNCHANGED <<store, req, ghost>>
           \* reads, subscriptions, database selection: nothing is stored (but a node-local counter) or sent
           [] o.op = "noop" -> UNCHANGED <<store, replq, req, ghost>>
+          [] o.op = "tick" -> UNCHANGED <<store, replq, req, ghost>>
           [] o.op = "increment" ->
                IF n = P
                THEN LET r == ApplyInc(n, o.k, o.n) IN
@@ -149,7 +165,7 @@ Repl(n) ==
              /\ pend' = pend \cup {<<m.id, s>> : s \in Secs}
              /\ sent' = [sent EXCEPT !.copy = @ + Cardinality(Secs)]
         ELSE UNCHANGED <<req, pend, sent>>     \* a secondary's loop sends nothing
-  /\ UNCHANGED <<store, rsp, next, clock, ghost>>
+  /\ UNCHANGED <<store, rsp, next, clock, ghost, disk, snapq>>
 
 (* ---------------- a request line reaches the peer ---------------- *)
 ApplyMsg(y, m) ==   \* returns <<store of y, accepted?>>
@@ -175,7 +191,8 @@ Deliver(x, y) ==
         /\ replq' = IF r[2] THEN Enq(y, [kind |-> m.kind, k |-> m.k, v |-> m.v, ver |-> m.ver, d |-> m.d]) ELSE replq
         /\ clock' = clock + 1
         /\ sent' = IF isrp THEN sent ELSE [sent EXCEPT !.forward = @ + 1]
-  /\ UNCHANGED <<pend, next, ghost>>
+        /\ snapq' = IF m.kind = "replicate-snapshot" THEN snapq \cup {y} ELSE snapq
+  /\ UNCHANGED <<pend, next, ghost, disk>>
 
 (* ---------------- a reply line reaches the dialling node ---------------- *)
 Reply(x, y) ==
@@ -186,7 +203,7 @@ Reply(x, y) ==
      /\ IF a.ack > 0
         THEN pend' = pend \ {<<a.ack, a.from>>} /\ sent' = [sent EXCEPT !.ack = @ + 1]
         ELSE UNCHANGED <<pend, sent>>
-  /\ UNCHANGED <<store, replq, req, next, clock, ghost>>
+  /\ UNCHANGED <<store, replq, req, next, clock, ghost, disk, snapq>>
 
 Quiet == /\ \A n \in Nodes : replq[n] = <<>>
          /\ \A l \in Links : req[l] = <<>> /\ rsp[l] = <<>>
@@ -203,9 +220,13 @@ Spec == Init /\ [][Next]_vars /\ WF_vars(Next)
 Converged == \A n \in Nodes : \A k \in Keys :
                /\ store[n][k][3] = store[P][k][3]
                /\ store[n][k][3] => (store[n][k][1] = store[P][k][1] /\ store[n][k][2] = store[P][k][2])
+(* "the same removed/live status and the same version": a removed key that the nodes still hold as a tombstone *)
+(* carries the same version everywhere (the next versioned write is judged against it)                        *)
+TombstonesAgree == \A n \in Nodes : \A k \in Keys :
+               (Exists(store[n][k]) /\ Exists(store[P][k]) /\ ~store[P][k][3]) => store[n][k][2] = store[P][k][2]
 
 (* C04, with the recorded deviations of the code *)
-ConvergedAtQuiescence == Quiet => (Converged \/ ghost # {})
+ConvergedAtQuiescence == Quiet => ((Converged /\ TombstonesAgree) \/ ghost # {})
 ConvergedStrict == Quiet => Converged
 (* C15 end to end *)
 NothingPendingAtQuiescence == Quiet => pend = {}
@@ -217,7 +238,7 @@ Budget == /\ sent.forward <= 1
 EventuallyQuiet == <>[](Quiet /\ next > Len(Ops))
 
 (* state view without the history: used when only the properties are checked *)
-View == <<store, replq, req, rsp, pend, next, sent, ghost>>
+View == <<store, replq, req, rsp, pend, next, sent, ghost, disk, snapq>>
 
 Done == Quiet /\ next > Len(Ops)
 EmitSchedule == Done => PrintT(<<"CASE", ToJson(sched)>>)
